@@ -537,7 +537,7 @@ fn c02_shape_twin() {
 
 // one instantiation of the generic lattice code per connector kind (the generic functions are
 // monomorphised: `Lattice::insert_node::<RawConnector>` is different compiled code)
-//@ c02_shape_n2_raw {"tier":"thorough","desc":"optimality on the full 2-character lattice with the raw (bigram feature) connector","bounds":"N=2, 3 spans, raw connector 2x2 ids, 3 templates, scorer 3 bases/4 cells, |cost|<2^20","symbolic":"word costs, ids, feature rows, scorer arrays","functions":["Lattice::insert_node::<RawConnector>","Lattice::search_min_node::<RawConnector>","Lattice::insert_eos::<RawConnector>","RawConnector::cost","Scorer::accumulate_cost"],"fs":2048,"unwind":10,"timeout":2400,"mem_gb":24}
+//@ c02_shape_n2_raw {"tier":"thorough","core":false,"desc":"optimality on the full 2-character lattice with the raw (bigram feature) connector","bounds":"N=2, 3 spans, raw connector 2x2 ids, 3 templates, scorer 3 bases/4 cells, |cost|<2^20","symbolic":"word costs, ids, feature rows, scorer arrays","functions":["Lattice::insert_node::<RawConnector>","Lattice::search_min_node::<RawConnector>","Lattice::insert_eos::<RawConnector>","RawConnector::cost","Scorer::accumulate_cost"],"fs":2048,"unwind":10,"timeout":2400,"mem_gb":24}
 #[cfg(kani)]
 #[kani::proof]
 fn c02_shape_n2_raw() {
@@ -553,7 +553,7 @@ fn c02_shape_n2_dual() {
     viterbi_shape(&conn, 2, 2, 2, 2, &N2_FULL, 2);
 }
 
-//@ c02_search_min_raw {"tier":"thorough","desc":"Bellman step with the raw connector: arg-min over a boundary of 2 arbitrary nodes","bounds":"M=2 nodes, raw connector 2x2","symbolic":"node costs/ids, feature rows, scorer arrays, left id","functions":["Lattice::search_min_node::<RawConnector>","RawConnector::cost"],"fs":2048,"unwind":10,"timeout":1800,"mem_gb":16}
+//@ c02_search_min_raw {"tier":"thorough","core":false,"desc":"Bellman step with the raw connector: arg-min over a boundary of 2 arbitrary nodes","bounds":"M=2 nodes, raw connector 2x2","symbolic":"node costs/ids, feature rows, scorer arrays, left id","functions":["Lattice::search_min_node::<RawConnector>","RawConnector::cost"],"fs":2048,"unwind":10,"timeout":1800,"mem_gb":16}
 #[cfg(kani)]
 #[kani::proof]
 fn c02_search_min_raw() {
